@@ -104,6 +104,32 @@ func globSteps(x *Ctx, f *ssa.Function) {
 		return
 	}
 	i, j := paths.DetachedTerm(f, iPhi).String(), paths.DetachedTerm(f, jPhi).String()
+	// the two remembered positions: on the step that consumes a '*' alone, one loop-carried value takes the
+	// pattern index and another the string index
+	var starPhi, matchPhi *ssa.Phi
+	for _, p := range ps {
+		if p.End != paths.EndLatch || p.Latch != l.Header {
+			continue
+		}
+		if p.LatchValue(iPhi).String() == "add("+i+",const(1))" && p.LatchValue(jPhi).String() == j {
+			for _, phi := range l.HeaderPhis() {
+				if phi == iPhi || phi == jPhi {
+					continue
+				}
+				switch p.LatchValue(phi).String() {
+				case i:
+					starPhi = phi
+				case j:
+					matchPhi = phi
+				}
+			}
+		}
+	}
+	if starPhi == nil || matchPhi == nil {
+		x.C.Unresolved("C13.R1", "remembered:glob.Match", x.pos(f), "cannot identify the remembered star / match positions among the loop-carried values")
+		return
+	}
+	star, match := paths.DetachedTerm(f, starPhi).String(), paths.DetachedTerm(f, matchPhi).String()
 	pat := "recv[" + i + "]"
 	patNext := "recv[add(" + i + ",const(1))]"
 	str := "arg0[" + j + "]"
@@ -137,21 +163,43 @@ func globSteps(x *Ctx, f *ssa.Function) {
 			detail = "a step advancing only the pattern must carry pattern[i] == '*'"
 		case di != i && dj != j && !strings.Contains(di, i) && !strings.Contains(dj, j):
 			kind = "backtrack-step"
-			// i := star+1 ; j := match+1 with star != -1
-			ok = false
-			for _, fc := range p.Facts {
-				if fc.Atom.Op == "eq" && !fc.Pol && (fc.Atom.Args[0].IsConst("-1") || fc.Atom.Args[1].IsConst("-1")) {
-					ok = true
-				}
-			}
-			detail = "a backtracking step must be guarded by a recorded star (starIdx != -1)"
+			// i := star+1 ; match := match+1 ; j := match, with star != -1: the wildcard takes exactly one more character
+			m1 := "add(" + match + ",const(1))"
+			ok = has(eqs(star, "const(-1)"), false) && di == "add("+star+",const(1))" && dj == m1 &&
+				p.LatchValue(matchPhi).String() == m1 && p.LatchValue(starPhi).String() == star
+			detail = "a backtracking step must be guarded by a recorded star (starIdx != -1) and be exactly: i = starIdx+1, matchIdx = matchIdx+1, j = matchIdx (the wildcard takes one more character; skipping ahead by anything computed from the raw pattern bytes ignores escapes)"
 		default:
 			kind = "unrecognised-step"
 			detail = fmt.Sprintf("the step i -> %s, j -> %s is none of literal / escape / star / backtrack: not the recognised matcher", di, dj)
 		}
+		switch kind {
+		case "literal-step", "escape-step":
+			if p.LatchValue(starPhi).String() != star || p.LatchValue(matchPhi).String() != match {
+				ok = false
+				detail += "; the remembered star / match positions must not change on this step"
+			}
+		case "star-step":
+			if p.LatchValue(starPhi).String() != i || p.LatchValue(matchPhi).String() != j {
+				ok = false
+				detail += "; it must remember the position of the '*' and the string position"
+			}
+		}
 		counts[kind]++
 		x.C.Obl("C13.R1", fmt.Sprintf("%s#%d:%s", kind, counts[kind], load.ShortName(f)), x.pos(f), detail, ok, renderPaths([]paths.VPath{v}, 1))
 	}
+	// the only way out of the scanning loop other than reaching the end of the string: no step applies and no
+	// star is remembered
+	badRet, nRet := "", 0
+	for _, p := range ps {
+		if p.End != paths.EndReturn || !p.EntersBody(l) {
+			continue
+		}
+		nRet++
+		if !p.Results()[0].IsConst("false") || !p.HasFact(eqs(star, "const(-1)"), true) {
+			badRet += "a return from inside the scanning loop that is not `no step applies and no star is remembered -> false`:\n" + p.String() + "\n"
+		}
+	}
+	x.C.Obl("C13.R1", "in-loop-exit:"+load.ShortName(f), x.pos(f), "the scanning loop is left early only with false, when no step applies and no '*' is remembered", badRet == "" && nRet >= 1, badRet)
 	for _, k := range []string{"literal-step", "escape-step", "star-step", "backtrack-step"} {
 		x.C.Obl("C13.R1", "has-"+k+":"+load.ShortName(f), x.pos(f), "the matcher has a "+k, counts[k] > 0, fmt.Sprintf("step kinds found: %v", counts))
 	}
